@@ -775,6 +775,7 @@ OPNMIDI_EXPORT void opn2_positionSeek(struct OPN2_MIDIPlayer *device, double sec
     play->realTime_panic();
     play->m_setup.delay = play->m_sequencer->seek(seconds, play->m_setup.mindelay);
     play->m_setup.carry = 0.0;
+    play->m_setup.tick_skip_samples_delay = 0; // the rest of the period that was being rendered belongs to the old position
 #else
     ADL_UNUSED(device);
     ADL_UNUSED(seconds);
